@@ -86,13 +86,6 @@ func (rc rawCase) String() string {
 	return fmt.Sprintf("registrations in order [%s] via %s, failing: %s", strings.Join(l, " "), rc.Variant, f)
 }
 
-func tierNames(thorough bool) []string {
-	if thorough {
-		return []string{"a", "b", "c", "d"}
-	}
-	return []string{"a", "b", "c"}
-}
-
 // outLists: every list of at most two targets (repetition allowed) for a source.
 func outLists(names []string, src string) [][]string {
 	var others []string
@@ -765,21 +758,50 @@ func normV3(l []V3) []V3 {
 
 // ---------------------------------------------------------------- driver
 
+// canonicalOrders: two global registration orders of a graph — source-major (all
+// upcasters of a, then of b, ...) and round-robin from the last source (the first
+// upcaster of d, c, b, a, then the second ones).
+func canonicalOrders(lists [][]edge, f func(order []edge)) {
+	var sm, rr []edge
+	for _, l := range lists {
+		sm = append(sm, l...)
+	}
+	for p := 0; p < 2; p++ {
+		for i := len(lists) - 1; i >= 0; i-- {
+			if p < len(lists[i]) {
+				rr = append(rr, lists[i][p])
+			}
+		}
+	}
+	f(sm)
+	if fmt.Sprint(sm) != fmt.Sprint(rr) {
+		f(rr)
+	}
+}
+
+// searches of a tier: the name set and whether every registration order is enumerated.
+type rawSearch struct {
+	Names     []string `json:"names"`
+	AllOrders bool     `json:"every_registration_order"`
+}
+
+func tierSearches(thorough bool) []rawSearch {
+	if thorough {
+		return []rawSearch{{[]string{"a", "b", "c", "d"}, true}}
+	}
+	return []rawSearch{{[]string{"a", "b", "c"}, true}, {[]string{"a", "b", "c", "d"}, false}}
+}
+
 func run(c *h.Check) {
-	names := tierNames(c.Thorough())
 	idx := 0
-	seen := map[string]bool{}
 	report := func(vs []viol, ops any) {
 		for _, v := range vs {
 			c.Violate(v.kind, v.sig, v.detail, ops)
-			seen[v.sig] = true
 		}
 	}
-	for _, g := range graphs(names) {
-		if c.TimeUp() {
-			return
-		}
-		interleavings(g, func(order []edge) {
+	for _, rs := range tierSearches(c.Thorough()) {
+		names := rs.Names
+		one := func(order []edge) {
 			idx++
 			if !c.Mine(idx) || c.TimeUp() {
 				return
@@ -804,9 +826,18 @@ func run(c *h.Check) {
 					report(vs, rc)
 				}
 			}
-		})
+		}
+		for _, g := range graphs(names) {
+			if c.TimeUp() {
+				return
+			}
+			if rs.AllOrders {
+				interleavings(g, one)
+			} else {
+				canonicalOrders(g, one)
+			}
+		}
 	}
-	c.Count("registries_enumerated_per_worker", int64(idx))
 	ti := 0
 	for _, regs := range typedSets() {
 		for _, hd := range []int{0, 1, 2} {
@@ -860,21 +891,31 @@ func replay(c *h.Check, rf *h.ReplayFile) []vrt.Violation {
 
 func main() {
 	h.Main("C17", "model_checking", []string{
-		"type names from a small set (3 quick / 4 thorough); at most two upcasters per source; raw upcasters are deterministic and return their declared target (other returned types are C16's input)",
+		"type names from a small set (see bounds.raw_searches); at most two upcasters per source; raw upcasters are deterministic and return their declared target (other returned types are C16's input)",
 		"a state is one registry: an acyclic graph in one global registration order; a transition is the upcast of one stored event under one failure choice, executed by ReplayWithUpcast on the real bus and compared with the reference interpreter",
 		"typed part: plain struct types without EventTypeName (name derivation is C15's subject)",
 	}, run, replay, func(tier string) map[string]any {
-		names := tierNames(tier == "thorough")
-		gs := graphs(names)
-		regs := 0
-		for _, g := range gs {
-			interleavings(g, func([]edge) { regs++ })
+		var bounds []map[string]any
+		for _, rs := range tierSearches(tier == "thorough") {
+			gs := graphs(rs.Names)
+			regs := 0
+			for _, g := range gs {
+				if rs.AllOrders {
+					interleavings(g, func([]edge) { regs++ })
+				} else {
+					canonicalOrders(g, func([]edge) { regs++ })
+				}
+			}
+			orders := "all interleavings of the per-source lists"
+			if !rs.AllOrders {
+				orders = "two canonical global orders per graph (source-major; round-robin from the last source); per-source orders all enumerated"
+			}
+			bounds = append(bounds, map[string]any{"names": rs.Names, "acyclic_graphs": len(gs), "registries_graph_x_registration_order": regs, "registration_orders": orders})
 		}
 		return map[string]any{
 			"rule": "non-trivial = evaluations of a stored event whose type has at least one registered upcaster (chain length >= 1); all registries are distinct by construction (distinct per-source lists or distinct global registration order)",
-			"bounds": map[string]any{"names": names, "max_upcasters_per_source": 2, "acyclic_graphs": len(gs), "registries_graph_x_registration_order": regs,
-				"registration_orders": "all interleavings of the per-source lists", "documents": len(documents), "setup_variants": variants,
-				"failure_positions": "each registered upcaster in turn, and none", "typed_registration_sets": len(typedSets())},
+			"bounds": map[string]any{"raw_searches": bounds, "max_upcasters_per_source": 2, "documents": len(documents), "setup_variants": variants,
+				"failure_positions": "each registered upcaster in turn, and none", "typed_registration_sets": len(typedSets()), "typed_handler_variants": 3},
 		}
 	})
 }
